@@ -457,7 +457,7 @@ func (g *Gen) destRaw(n *Node, t reflect.Type, populated bool) reflect.Value {
 		}
 		// two pointer fields of one type may hold the same address (shared pointees are ordinary Go data): each node
 		// still judges the value it finds.  (Only below nodes that write nothing: a write through one would show in the other.)
-		if fk := r.Fork(0xa11a); fk.P(60) {
+		if fk := r.Fork(0xa11a); g.aliasPtrs && fk.P(60) { // (only in values that are validated in place: Parse writes through a prefilled pointer)
 			for i, f1 := range n.Fields {
 				for _, f2 := range n.Fields[i+1:] {
 					a, b := v.FieldByName(GoName(f1.Key)), v.FieldByName(GoName(f2.Key))
